@@ -447,7 +447,7 @@ Proof.
 Qed.
 
 Lemma can_merge_inv t : can_merge t = true ->
-  exists r m w cr cm cw cch, t = Loop r m w [Loop cr cm cw cch] /\ merge_child t = Loop (r * cr) (merge_meta m cm) cw cch.
+  exists r m w cr cm cw cch, t = Loop r m w [Loop cr cm cw cch] /\ merge_child t = Loop (r * cr) (merge_meta r m cr cm) cw cch.
 Proof.
   destruct t as [r m w [|[cr cm cw cch] [|c2 ch]]]; unfold can_merge; cbn [l_ch]; try discriminate.
   intros _. repeat eexists.
@@ -656,7 +656,7 @@ Qed.
 Lemma parse_aseq_loop_nf tbl : forall tables adv seqs known, nf (parse_aseq_loop tbl tables adv seqs known).
 Proof.
   induction tables as [|t r IH]; intros adv seqs known; cbn [parse_aseq_loop]; [discriminate|].
-  apply bind_nf; [apply parse_table_nf|]. intros [es k1]. destruct (setdefault table_eqb es seqs). apply IH.
+  apply bind_nf; [apply parse_table_nf|]. intros [es k1]. destruct (setdefault tkey_eqb (es, map l_volp (l_ch t)) seqs). apply IH.
 Qed.
 
 Lemma sample_segment_nf c wd : nf (sample_segment c wd).
